@@ -70,6 +70,7 @@ def errToModel : Fail → Option Meta.OpenErr
   | .err (.io _) => some .io
   | .err .invalidFormatVersion => some .badMagic
   | .err .invalidCompressionType => some .badCodec
+  | .err .cursor => none
   | .panic _ => none
 
 def resToModel : M Gen.Metadata → Option (Except Meta.OpenErr Meta.Meta)
